@@ -10,10 +10,10 @@ import (
 )
 
 var c16Cmds = []string{"status", "lockstate", "breakonstart", "break", "rmbreak", "disablebreak", "cont", "describe", "extract", "inject", "bogus", ""}
-var c16Args = []string{"1", "77", "-1", "99999999999999999999", "t:2", "t:", ":5", "t", "a", "1+", "stepin", "stepover", "stepout", "resume", "true", "0", "foo()", "len(1)", "1+\"a\"", "b"}
+var c16Args = []string{"1", "77", "-1", "99999999999999999999", "t:2", "t:", ":5", "t", "a", "1+", "stepin", "stepover", "stepout", "resume", "true", "0", "foo()", "len(1)", "1+\"a\"", "b", "f(1)"} // f: a function the program of state 3 defines
 var c16Lbl = []string{"0", "1", "2", "3", "4", "5"}
 
-const c16ProgTop = "a := 1\nb := 2\nc := 3"
+const c16ProgTop = "func f(x) { return x }\nb := 2\nc := 3" // f: a program function without a breakpoint in it
 const c16ProgCall = "func f(x) {\n  y := x\n  return y\n}\nr := f(1)\nq := 2"
 
 // values a variable of the suspended program may hold (VALUES=1): every kind of the ECAL value universe incl. the
@@ -23,7 +23,9 @@ var c16Values = []string{"1", "1 / 0", "0 - 1 / 0", "0 / 0", "\"s\"", "[1, [2, n
 // c16State builds one of the debugger states: 0 fresh, 1 finished run, 2 thread suspended at top level,
 // 3 thread suspended inside a call, 4 thread suspended by break-on-error at a failing call.
 func c16State(kind int) util.ECALDebugger {
-	dbg := NewECALDebugger(scope.NewScope(scope.GlobalScope))
+	// the debugger works on the interpreter's global scope, the one the program runs in (as the command line tools set it up)
+	vs := scope.NewScope(scope.GlobalScope)
+	dbg := NewECALDebugger(vs)
 	if kind == 0 {
 		return dbg
 	}
@@ -54,7 +56,6 @@ func c16State(kind int) util.ECALDebugger {
 	ast, err := parser.ParseWithRuntime("t", src, erp)
 	zz.Assert(err == nil, "C16.setup-parse")
 	zz.Assert(ast.Runtime.Validate() == nil, "C16.setup-validate")
-	vs := scope.NewScope(scope.GlobalScope)
 	tid := erp.NewThreadID()
 	if kind == 1 {
 		_, err = ast.Runtime.Eval(vs, make(map[string]interface{}), tid)
@@ -87,9 +88,14 @@ func VerifC16Total() {
 			zz.Assume(ci == only)
 		}
 		line := c16Cmds[ci]
+		callsF := false
 		na := zz.Choice("nargs"+c16Lbl[c], maxArgs+1)
+		i3 := -1
 		for i := 0; i < na; i++ {
 			ai := zz.Choice("arg"+c16Lbl[c]+c16Lbl[i], len(c16Args)+1)
+			if ai < len(c16Args) && c16Args[ai] == "f(1)" {
+				i3 = i
+			}
 			if ai == len(c16Args) {
 				g := zz.Bytes("garbage"+c16Lbl[c]+c16Lbl[i], 2)
 				zz.Assume(zz.OneOf(g[0], "a1:-. "))
@@ -97,8 +103,12 @@ func VerifC16Total() {
 				line += " " + string(g)
 			} else {
 				line += " " + c16Args[ai]
+				callsF = callsF || c16Args[ai] == "f(1)"
 			}
 		}
+		// listed known finding: the expression of an inject command calls a program function with an active breakpoint in
+		// it - the evaluation done for the console suspends at that breakpoint and the command never returns
+		zz.Known("C16-inject-expression-suspends-at-a-breakpoint", "deadlock", kind == 3 && ci == 9 && callsF && i3 == 2)
 		res, cerr := dbg.HandleInput(line)
 		zz.Reach("command-returned")
 		if cerr == nil {
